@@ -839,8 +839,15 @@ def tie_latebind(ck, model):
     try:
         llc = setup()
         world.begin_term(None, None)
-        llc.terminate("dry run")
-        world.end()
+        try:
+            llc.terminate("dry run")
+        except T.Hang as h:
+            ck.fail("terminate-blocks", "llc.terminate() itself waits on %s (the link thread would hang): a controller with an established "
+                    "connection at 33, a datagram socket at 40, a raw access point at 20 and a listening socket" % h.cv,
+                    {"sockets": ["dlc 33 established", "ldl 40", "raw 20", "dlc listening urn:nfc:sn:svc"], "waits_on": str(h.cv)})
+            return
+        finally:
+            world.end()
         points = list(world.points)
         idx = [p for p in points if p[0] == "i"]
         if ck.thorough:
@@ -930,10 +937,18 @@ def guarded(ck, phase, fn, *args):
     import traceback
     from common import Infra
     import subprocess
+    from sims import term_llc as T
     try:
         return fn(*args)
     except (Infra, subprocess.TimeoutExpired, KeyboardInterrupt, MemoryError):
         raise
+    except T.Hang as h:
+        # a wait() without time-out at a place where the harness runs link-thread or set-up code single-threaded
+        tb = traceback.extract_tb(h.__traceback__)
+        frames = ["%s:%d %s" % (os.path.basename(f.filename), f.lineno, f.name) for f in tb[-8:]]
+        ck.fail("unexpected-wait-during-" + phase, "code that must not block (terminate(), socket set-up) waits on %s without "
+                "time-out during the phase '%s'" % (h.cv, phase), {"phase": phase, "waits_on": str(h.cv), "frames": frames})
+        return 0
     except Exception as e:  # noqa
         tb = traceback.extract_tb(e.__traceback__)
         srcdir = os.path.join(REPO, "src") + os.sep
